@@ -104,6 +104,11 @@ def gen_state(r, path, suffix, name_prefix, affects_fn=None, layouts=("own", "ow
             protected.add(ln)
     if sentinel:
         protected |= {K + 1, K + 2, K + 3}
+    # multi-line string / heredoc decoys: deleting their first or last line would turn the decoy tag into a real comment
+    for a, z in g.meta.get("decoy_spans", []):
+        if z > a:
+            for ln in range(a, z + 1):
+                protected.add(ln + 3 if (sentinel and ln > K) else ln)
     L = langs.LANGS[lang]
     for k in range(len(L["prologue"])):
         protected.add(k + 1)          # e.g. `<?php`: deleting it would turn every comment into text
